@@ -123,6 +123,22 @@ Theorem C15_frontend_arguments_invariant :
 Proof. exact (@main_frontend_args). Qed.
 Print Assumptions C15_frontend_arguments_invariant.
 
+(* Re-use of operation objects: n applications of ONE Xgate / Vgate / post-selecting MeasureHomodyne object leave the
+   object's stored parameter unchanged and hand the backend, at every application, the same hbar-free number as in
+   the other convention (the conversion acts on a local copy). *)
+Theorem C15_reapply_same_arguments :
+  forall (K : Type) (F : Fld K),
+    field_theory (f0 F) (f1 F) (fadd F) (fmul F) (fsub F) (fopp F) (fdiv F) (finv F) (@eq K) ->
+    two F <> f0 F ->
+  forall (c c' : hctx K) (lam : K), good F c -> good F c' -> sh2 c' = fmul F lam (sh2 c) ->
+  forall (n : nat) (x g sel : K),
+  let m := fmul F in
+  op_apply_n (xgate_r F c') (m lam x) n = (m lam x, repeat (xgate_r F c x) n)
+  /\ op_apply_n (vgate_gamma F c') (fdiv F g lam) n = (fdiv F g lam, repeat (vgate_gamma F c g) n)
+  /\ op_apply_n (homodyne_select F c') (m lam sel) n = (m lam sel, repeat (homodyne_select F c sel) n).
+Proof. exact (@main_reapply). Qed.
+Print Assumptions C15_reapply_same_arguments.
+
 (* In every single convention the documented units hold exactly: Xgate(x) shifts <x> by x, Zgate(p) shifts
    <p> by p, a post-selected homodyne reports the selected value, Gaussian(V, r) is read back as (V, r), the
    decomposed and the direct preparation displace identically, and the cubic phase gate handed to the
